@@ -1,3 +1,841 @@
+"""In-memory model of the part of h5py that cooler uses (stub E3).
+
+Storage nodes (_GroupNode/_DatasetNode) are separate from the File/Group/Dataset *handles* bound to them,
+as in h5py (`util.closing_hdf5` subclasses Group and calls `super().__init__(grp.id)`).  Files live in a
+registry keyed by real path; a zero-byte marker file is kept on disk so that `os.path.isfile`,
+`tempfile.NamedTemporaryFile` and friends, which cooler calls directly, stay consistent with the model.
+Integer writes clip to the dataset type as HDF5's hard conversion does; filters are no-ops.
+"""
+from __future__ import annotations
+
+import builtins
+import os
+import posixpath
+
 import h5py as _h5
+import numpy as _np
+
+from . import symnp
+from .symcore import Inconclusive, SBool, SInt, SReal, concretize, is_sym, ite
+from .symnp import CArr, SArr, _A
+
+_REG: dict[str, "_FileNode"] = {}
+
+
+def reset():
+    """forget every in-memory file (called at the start of each explored path)"""
+    _REG.clear()
+
+
 def __getattr__(name):
     return getattr(_h5, name)
+
+
+special_dtype = _h5.special_dtype
+check_dtype = _h5.check_dtype
+string_dtype = _h5.string_dtype
+
+
+# ---------------------------------------------------------------------------
+# storage
+# ---------------------------------------------------------------------------
+class _Node:
+    def __init__(self):
+        self.attrs = {}
+
+
+class _GroupNode(_Node):
+    def __init__(self):
+        super().__init__()
+        self.children = {}  # name -> ("hard", node) | ("soft", path) | ("external", filename, path)
+
+
+class _DatasetNode(_Node):
+    def __init__(self, data, dtype, maxshape=None, fillvalue=None):
+        super().__init__()
+        self.data = data          # SArr (numeric) or numpy array (strings / objects)
+        self.dtype = dtype        # numpy dtype, may carry h5py enum metadata
+        self.maxshape = maxshape
+        self.fillvalue = fillvalue
+
+
+class _FileNode:
+    def __init__(self, path):
+        self.path = path
+        self.root = _GroupNode()
+        self.attrs = self.root.attrs
+
+
+class SoftLink:
+    def __init__(self, path):
+        self.path = path
+
+
+class ExternalLink:
+    def __init__(self, filename, path):
+        self.filename, self.path = filename, path
+
+
+class _ObjID:
+    def __init__(self, fnode, node, name, mode):
+        self.fnode, self.node, self.name, self.mode = fnode, node, name, mode
+
+    @property
+    def valid(self):
+        return True
+
+
+def _key(path):
+    return os.path.realpath(os.fspath(path))
+
+
+def is_hdf5(path):
+    try:
+        k = _key(path)
+    except TypeError:
+        return False
+    return k in _REG and os.path.exists(k)
+
+
+def _deepcopy(node):
+    if isinstance(node, _DatasetNode):
+        d = _DatasetNode(node.data.copy(), node.dtype, node.maxshape, node.fillvalue)
+        d.attrs = dict(node.attrs)
+        return d
+    g = _GroupNode()
+    g.attrs = dict(node.attrs)
+    for k, link in node.children.items():
+        if link[0] == "hard":
+            g.children[k] = ("hard", _deepcopy(link[1]))
+        else:
+            g.children[k] = link
+    return g
+
+
+# ---------------------------------------------------------------------------
+# conversion of values into a dataset type
+# ---------------------------------------------------------------------------
+def _clip_int(x, dt, src_dt=None):
+    info = _np.iinfo(dt)
+    if isinstance(x, SBool):
+        x = ite(x, 1, 0)
+    if isinstance(x, SReal):
+        x = SInt(__import__("z3").If(x.v >= 0, __import__("z3").ToInt(x.v), -__import__("z3").ToInt(-x.v)))
+    if isinstance(x, SInt):
+        if src_dt is not None and src_dt.kind in "iub":
+            try:
+                si = _np.iinfo(src_dt) if src_dt.kind != "b" else None
+                if si is None or (si.min >= info.min and si.max <= info.max):
+                    return x
+            except ValueError:
+                pass
+        return ite(x > info.max, info.max, ite(x < info.min, info.min, x))
+    if isinstance(x, float):
+        if x != x:
+            return 0
+        x = builtins.int(x)
+    x = builtins.int(x)
+    return info.max if x > info.max else (info.min if x < info.min else x)
+
+
+def _convert(values, dt, src_dt=None):
+    """python list of element values converted to dataset dtype `dt` (HDF5 hard conversion)"""
+    k = dt.kind
+    if k in "iu":
+        return [_clip_int(v, dt, src_dt) for v in values]
+    if k == "f":
+        return [SReal.of(v) if is_sym(v) else builtins.float(v) for v in values]
+    if k == "b":
+        return [v if isinstance(v, (SBool, bool)) else (v != 0) for v in values]
+    return values
+
+
+def _to_items(data, n=None):
+    """(list of python/symbolic elements, source dtype) from any array-like"""
+    if hasattr(data, "_col"):  # sympd.SSeries
+        data = data._col
+        if hasattr(data, "codes") and hasattr(data, "categories"):
+            data = data.codes
+    if hasattr(data, "__sarr__") and not isinstance(data, SArr):
+        data = data.__sarr__()
+    if isinstance(data, SArr):
+        return list(data.items), data.dtype
+    if isinstance(data, (SInt, SBool, SReal)):
+        return [data] * (n if n is not None else 1), symnp._elem_dtype(data)
+    try:
+        import pandas as _pd
+        if isinstance(data, _pd.Series):
+            data = data.to_numpy()
+    except ImportError:
+        pass
+    if isinstance(data, (list, tuple)):
+        if builtins.any(is_sym(x) for x in data):
+            a = SArr(list(data))
+            return list(a.items), a.dtype
+        data = _np.asarray(data)
+    if isinstance(data, _np.ndarray):
+        if data.ndim == 0:
+            return [data.item()] * (n if n is not None else 1), data.dtype
+        return data.tolist(), data.dtype
+    if _np.isscalar(data):
+        return [data] * (n if n is not None else 1), _np.asarray(data).dtype
+    a = _np.asarray(data)
+    return a.tolist(), a.dtype
+
+
+# ---------------------------------------------------------------------------
+# handles
+# ---------------------------------------------------------------------------
+class AttributeManager:
+    def __init__(self, node, mode):
+        self._d = node.attrs
+        self._mode = mode
+
+    @staticmethod
+    def _out(v):
+        if isinstance(v, bool):
+            return _np.bool_(v)
+        if isinstance(v, builtins.int):
+            return _np.int64(v)
+        if isinstance(v, builtins.float):
+            return _np.float64(v)
+        if isinstance(v, (list, tuple)):
+            return _np.asarray(v)
+        return v
+
+    def __getitem__(self, k):
+        return self._out(self._d[k])
+
+    def __setitem__(self, k, v):
+        if self._mode == "r":
+            raise KeyError("Unable to synchronously create attribute (no write intent on file)")
+        if isinstance(v, _np.generic):
+            v = v.item()
+        if isinstance(v, bytes):
+            v = v.decode()
+        self._d[k] = v
+
+    def __delitem__(self, k):
+        del self._d[k]
+
+    def __contains__(self, k):
+        return k in self._d
+
+    def __iter__(self):
+        return iter(list(self._d))
+
+    def __len__(self):
+        return len(self._d)
+
+    def get(self, k, default=None):
+        return self._out(self._d[k]) if k in self._d else default
+
+    def keys(self):
+        return list(self._d.keys())
+
+    def values(self):
+        return [self._out(v) for v in self._d.values()]
+
+    def items(self):
+        return [(k, self._out(v)) for k, v in self._d.items()]
+
+    def update(self, other=(), **kw):
+        items = other.items() if hasattr(other, "items") else other
+        for k, v in items:
+            self[k] = v
+        for k, v in kw.items():
+            self[k] = v
+
+    def create(self, name, data, **kw):
+        self[name] = data
+
+    def modify(self, name, value):
+        self[name] = value
+
+
+class HLObject:
+    def __init__(self, oid):
+        self._id = oid
+
+    @property
+    def id(self):
+        return self._id
+
+    @property
+    def name(self):
+        return self._id.name
+
+    @property
+    def attrs(self):
+        return AttributeManager(self._id.node, self._id.mode)
+
+    @property
+    def file(self):
+        f = File.__new__(File)
+        HLObject.__init__(f, _ObjID(self._id.fnode, self._id.fnode.root, "/", self._id.mode))
+        return f
+
+    @property
+    def parent(self):
+        p = posixpath.dirname(self._id.name) or "/"
+        return self.file[p]
+
+    def __bool__(self):
+        return True
+
+    def __eq__(self, o):
+        return isinstance(o, HLObject) and o._id.node is self._id.node
+
+    def __hash__(self):
+        return id(self._id.node)
+
+
+class Group(HLObject):
+    def __init__(self, oid):
+        if not isinstance(oid, _ObjID):
+            raise ValueError(f"{oid} is not a GroupID")
+        super().__init__(oid)
+
+    # -- path resolution ----------------------------------------------------
+    def _abs(self, path):
+        if isinstance(path, bytes):
+            path = path.decode()
+        if path.startswith("/"):
+            p = posixpath.normpath(path)
+        else:
+            p = posixpath.normpath(posixpath.join(self._id.name, path))
+        return "/" if p in ("//", ".") else p
+
+    def _walk(self, path, follow_last=True, depth=0):
+        """resolve to (fnode, node, abs name); raises KeyError"""
+        if depth > 16:
+            raise KeyError("too many levels of links")
+        ap = self._abs(path)
+        fnode = self._id.fnode
+        node = fnode.root
+        parts = [x for x in ap.split("/") if x]
+        for i, part in enumerate(parts):
+            if not isinstance(node, _GroupNode) or part not in node.children:
+                raise KeyError(f"Unable to synchronously open object (object '{part}' doesn't exist)")
+            link = node.children[part]
+            last = i == len(parts) - 1
+            if link[0] == "hard":
+                node = link[1]
+            elif link[0] == "soft":
+                if last and not follow_last:
+                    return fnode, link, ap
+                sub = Group(_ObjID(fnode, fnode.root, "/", self._id.mode))
+                tgt = link[1] if link[1].startswith("/") else posixpath.join("/" + "/".join(parts[:i]), link[1])
+                fnode2, node, _ = sub._walk(tgt, True, depth + 1)
+                if fnode2 is not fnode:
+                    fnode = fnode2
+            else:
+                if last and not follow_last:
+                    return fnode, link, ap
+                k = _key(link[1] if os.path.isabs(link[1]) else os.path.join(os.path.dirname(fnode.path), link[1]))
+                if k not in _REG:
+                    raise KeyError("Unable to synchronously open object (unable to open external file)")
+                fnode = _REG[k]
+                sub = Group(_ObjID(fnode, fnode.root, "/", "r"))
+                fnode, node, _ = sub._walk(link[2], True, depth + 1)
+        return fnode, node, ap
+
+    def _handle(self, fnode, node, name):
+        oid = _ObjID(fnode, node, name, self._id.mode)
+        if isinstance(node, _DatasetNode):
+            return Dataset(oid)
+        return Group(oid)
+
+    def __getitem__(self, path):
+        if isinstance(path, (_ObjID,)):
+            return self._handle(path.fnode, path.node, path.name)
+        fnode, node, ap = self._walk(path)
+        return self._handle(fnode, node, ap)
+
+    def get(self, name, default=None, getclass=False, getlink=False):
+        try:
+            if getlink:
+                fnode, node, ap = self._walk(name, follow_last=False)
+                if isinstance(node, tuple):
+                    return SoftLink(node[1]) if node[0] == "soft" else ExternalLink(node[1], node[2])
+                return _h5.HardLink()
+            return self[name]
+        except KeyError:
+            return default
+
+    def __contains__(self, path):
+        try:
+            self._walk(path)
+            return True
+        except KeyError:
+            return False
+
+    def _parent_and_leaf(self, path, create=False):
+        ap = self._abs(path)
+        if ap == "/":
+            raise ValueError("Unable to create link (name already exists)")
+        parent, leaf = posixpath.split(ap)
+        node = self._id.fnode.root
+        for part in [x for x in parent.split("/") if x]:
+            if part not in node.children:
+                if not create:
+                    raise KeyError(f"Unable to open object (component not found: {part})")
+                node.children[part] = ("hard", _GroupNode())
+            link = node.children[part]
+            if link[0] != "hard":
+                fn, n2, _ = self._walk("/" + part if node is self._id.fnode.root else part)
+                node = n2
+            else:
+                node = link[1]
+            if not isinstance(node, _GroupNode):
+                raise ValueError("Unable to create (component is not a group)")
+        return node, leaf, ap
+
+    def _writable(self):
+        if self._id.mode == "r":
+            raise ValueError("Unable to synchronously create (no write intent on file)")
+
+    def __setitem__(self, path, obj):
+        self._writable()
+        parent, leaf, ap = self._parent_and_leaf(path, create=True)
+        if leaf in parent.children:
+            raise OSError(f"Unable to synchronously create link (name already exists)")
+        if isinstance(obj, HLObject):
+            if obj._id.fnode is not self._id.fnode:
+                raise OSError("Unable to create link (interfile hard links are not allowed)")
+            parent.children[leaf] = ("hard", obj._id.node)
+        elif isinstance(obj, SoftLink):
+            parent.children[leaf] = ("soft", obj.path)
+        elif isinstance(obj, ExternalLink):
+            parent.children[leaf] = ("external", obj.filename, obj.path)
+        else:
+            self.create_dataset(path, data=obj)
+
+    def __delitem__(self, path):
+        self._writable()
+        parent, leaf, ap = self._parent_and_leaf(path)
+        if leaf not in parent.children:
+            raise KeyError(f"Couldn't delete link (name doesn't exist)")
+        del parent.children[leaf]
+
+    def keys(self):
+        return list(self._id.node.children.keys())
+
+    def __iter__(self):
+        return iter(self.keys())
+
+    def __len__(self):
+        return len(self._id.node.children)
+
+    def values(self):
+        return [self[k] for k in self.keys()]
+
+    def items(self):
+        return [(k, self[k]) for k in self.keys()]
+
+    def create_group(self, path, track_order=None):
+        self._writable()
+        ap = self._abs(path)
+        if ap == "/":
+            raise ValueError("Unable to synchronously create group (name already exists)")
+        parent, leaf, ap = self._parent_and_leaf(path, create=True)
+        if leaf in parent.children:
+            raise ValueError("Unable to synchronously create group (name already exists)")
+        node = _GroupNode()
+        parent.children[leaf] = ("hard", node)
+        return Group(_ObjID(self._id.fnode, node, ap, self._id.mode))
+
+    def require_group(self, path):
+        if path in self:
+            g = self[path]
+            if not isinstance(g, Group):
+                raise TypeError("Incompatible object already exists")
+            return g
+        return self.create_group(path)
+
+    def create_dataset(self, name, shape=None, dtype=None, data=None, maxshape=None, fillvalue=None, **filters):
+        self._writable()
+        for k in filters:
+            if k not in ("chunks", "compression", "compression_opts", "scaleoffset", "shuffle", "fletcher32",
+                         "track_times", "track_order", "external", "allow_unknown_filter", "rdcc_nbytes"):
+                raise TypeError(f"create_dataset() got an unexpected keyword argument '{k}'")
+        parent, leaf, ap = self._parent_and_leaf(name, create=True)
+        if leaf in parent.children:
+            raise ValueError("Unable to synchronously create dataset (name already exists)")
+        if isinstance(shape, builtins.int):
+            shape = (shape,)
+        if data is not None and not isinstance(data, (SArr, _np.ndarray)) and not hasattr(data, "_col"):
+            if isinstance(data, (list, tuple)) and not builtins.any(is_sym(x) for x in data):
+                data = _np.asarray(data)
+        if dtype is None:
+            if data is None:
+                dtype = _np.dtype("float32")
+            else:
+                dtype = data.dtype if hasattr(data, "dtype") and not hasattr(data, "_col") else _to_items(data)[1]
+        dt = _np.dtype(dtype)
+        if dt.kind == "O" and _h5.check_dtype(vlen=dt) is None and _h5.check_dtype(enum=dt) is None:
+            raise TypeError("Object dtype dtype('O') has no native HDF5 equivalent")
+        if dt.kind == "U":
+            raise TypeError(f"No conversion path for dtype: {dt!r}")
+        if data is not None:
+            if dt.kind in "iufb":
+                items, sdt = _to_items(data)
+                n = len(items)
+                if shape is not None and tuple(shape) != (n,):
+                    if shape == ():
+                        pass
+                    else:
+                        raise ValueError(f"Shape tuple is incompatible with data")
+                store = SArr(_convert(items, dt, sdt), _plain(dt))
+            else:
+                arr = _np.asarray(data if not isinstance(data, SArr) else data.to_real())
+                if dt.kind == "S" and arr.dtype.kind in "UO":
+                    arr = _np.array([x.encode() if isinstance(x, str) else x for x in arr.tolist()], dtype=dt if dt.itemsize else "S")
+                elif dt.kind == "S":
+                    arr = arr.astype(dt if dt.itemsize else arr.dtype)
+                if shape is not None and tuple(shape) != arr.shape:
+                    raise ValueError("Shape tuple is incompatible with data")
+                store = arr
+                if dt.kind == "S" and dt.itemsize == 0:
+                    dt = arr.dtype
+        else:
+            if shape is None:
+                raise TypeError("One of data, shape or dtype must be specified")
+            if len(shape) != 1:
+                raise Inconclusive("multi-dimensional dataset")
+            n = concretize(shape[0])
+            fv = fillvalue if fillvalue is not None else 0
+            if dt.kind in "iufb":
+                store = SArr(_convert([fv] * n, dt), _plain(dt))
+            else:
+                store = _np.zeros(n, dtype=dt)
+        if maxshape is not None:
+            if isinstance(maxshape, builtins.int):
+                maxshape = (maxshape,)
+            ms = maxshape[0]
+            ms = None if ms is None else concretize(ms)
+            if ms is not None and len(store) > ms:
+                raise ValueError("Unable to synchronously create dataset (current size must not exceed maximum size)")
+            maxshape = (ms,)
+        node = _DatasetNode(store, dt, maxshape, fillvalue)
+        parent.children[leaf] = ("hard", node)
+        return Dataset(_ObjID(self._id.fnode, node, ap, self._id.mode))
+
+    def require_dataset(self, name, shape, dtype, **kw):
+        if name in self:
+            return self[name]
+        return self.create_dataset(name, shape=shape, dtype=dtype, **kw)
+
+    def copy(self, source, dest, name=None, **kw):
+        if isinstance(source, HLObject):
+            snode, sname = source._id.node, source._id.name
+        else:
+            _, snode, sname = self._walk(source)
+        if isinstance(dest, HLObject):
+            dgrp = dest
+            if name is None:
+                name = posixpath.basename(sname)
+        else:
+            dgrp = self
+            name = dest
+        dgrp._writable()
+        if not isinstance(dgrp, Group):
+            raise TypeError("destination must be a group")
+        if name is None or name in ("", "/"):
+            raise ValueError("Unable to copy object (destination name required)")
+        parent, leaf, ap = dgrp._parent_and_leaf(name, create=True)
+        if leaf in parent.children:
+            raise ValueError("Unable to synchronously copy object (destination object already exists)")
+        parent.children[leaf] = ("hard", _deepcopy(snode))
+
+    def move(self, source, dest):
+        self[dest] = self[source]
+        del self[source]
+
+    def visititems(self, func):
+        def rec(g, prefix):
+            for k in g.keys():
+                o = g[k]
+                p = prefix + k
+                r = func(p, o)
+                if r is not None:
+                    return r
+                if isinstance(o, Group):
+                    r = rec(o, p + "/")
+                    if r is not None:
+                        return r
+        return rec(self, "")
+
+    def visit(self, func):
+        return self.visititems(lambda n, o: func(n))
+
+    def __repr__(self):
+        return f'<symh5 group "{self.name}" ({len(self)} members)>'
+
+
+def _plain(dt):
+    """numpy dtype without h5py metadata (element representation)"""
+    return _np.dtype(dt.str) if dt.kind in "iufb" else dt
+
+
+class File(Group):
+    def __init__(self, name, mode="r", *args, **kwds):
+        if isinstance(name, _ObjID):
+            HLObject.__init__(self, name)
+            return
+        for k in kwds:
+            if k not in ("driver", "libver", "userblock_size", "swmr", "rdcc_nslots", "rdcc_nbytes", "rdcc_w0",
+                         "track_order", "fs_strategy", "fs_persist", "fs_threshold", "fs_page_size", "page_buf_size",
+                         "min_meta_keep", "min_raw_keep", "locking", "alignment_threshold", "alignment_interval",
+                         "meta_block_size"):
+                raise TypeError(f"File() got an unexpected keyword argument '{k}'")
+        if not isinstance(name, (str, bytes, os.PathLike)):
+            raise Inconclusive("File() from a non-path object")
+        key = _key(name)
+        exists = key in _REG and os.path.exists(key)
+        if mode == "r":
+            if not exists:
+                if os.path.exists(key):
+                    raise OSError(f"Unable to synchronously open file (file signature not found)")
+                raise FileNotFoundError(f"[Errno 2] Unable to synchronously open file (unable to open file: name = '{name}')")
+            fnode, m = _REG[key], "r"
+        elif mode == "r+":
+            if not exists:
+                if os.path.exists(key):
+                    raise OSError(f"Unable to synchronously open file (file signature not found)")
+                raise FileNotFoundError(f"[Errno 2] Unable to synchronously open file (unable to open file: name = '{name}')")
+            fnode, m = _REG[key], "r+"
+        elif mode in ("w-", "x"):
+            if os.path.exists(key):
+                raise FileExistsError(f"[Errno 17] Unable to synchronously create file (unable to open file: name = '{name}')")
+            fnode, m = self._create(key), "r+"
+        elif mode == "w":
+            fnode, m = self._create(key), "r+"
+        elif mode == "a":
+            if exists:
+                fnode = _REG[key]
+            elif os.path.exists(key) and os.path.getsize(key) > 0:
+                raise OSError("Unable to synchronously open file (file signature not found)")
+            else:
+                fnode = self._create(key)
+            m = "r+"
+        else:
+            raise ValueError("Invalid mode; must be one of r, r+, w, w-, x, a")
+        HLObject.__init__(self, _ObjID(fnode, fnode.root, "/", m))
+        self._filename = os.fspath(name) if not isinstance(name, bytes) else name.decode()
+        self._open = True
+
+    @staticmethod
+    def _create(key):
+        d = os.path.dirname(key)
+        if d and not os.path.isdir(d):
+            raise FileNotFoundError(f"[Errno 2] Unable to synchronously create file (unable to open file: name = '{key}')")
+        open(key, "wb").close()
+        fnode = _FileNode(key)
+        _REG[key] = fnode
+        return fnode
+
+    @property
+    def filename(self):
+        return getattr(self, "_filename", self._id.fnode.path)
+
+    @property
+    def mode(self):
+        return self._id.mode
+
+    def close(self):
+        self._open = False
+
+    def flush(self):
+        pass
+
+    def __enter__(self):
+        return self
+
+    def __exit__(self, *a):
+        self.close()
+        return False
+
+    def __repr__(self):
+        return f'<symh5 file "{os.path.basename(self.filename)}" (mode {self.mode})>'
+
+
+class Dataset(HLObject):
+    def __init__(self, oid):
+        super().__init__(oid)
+
+    @property
+    def _n(self):
+        return self._id.node
+
+    @property
+    def dtype(self):
+        return self._n.dtype
+
+    @property
+    def shape(self):
+        return (len(self._n.data),)
+
+    @property
+    def maxshape(self):
+        return self._n.maxshape if self._n.maxshape is not None else self.shape
+
+    @property
+    def size(self):
+        return len(self._n.data)
+
+    @property
+    def ndim(self):
+        return 1
+
+    @property
+    def fillvalue(self):
+        return self._n.fillvalue if self._n.fillvalue is not None else 0
+
+    @property
+    def chunks(self):
+        return None
+
+    @property
+    def compression(self):
+        return None
+
+    def __len__(self):
+        return len(self._n.data)
+
+    def len(self):
+        return len(self._n.data)
+
+    def __sarr__(self):
+        d = self._n.data
+        return d if isinstance(d, SArr) else _A(d)
+
+    def __array__(self, dtype=None, copy=None):
+        d = self._n.data
+        r = d.to_real() if isinstance(d, SArr) else d
+        if isinstance(d, SArr) and self._n.dtype.kind in "iufb":
+            r = r.astype(_plain(self._n.dtype))
+        return _np.asarray(r, dtype=dtype)
+
+    def __iter__(self):
+        return iter(self[:])
+
+    def __getitem__(self, k):
+        d = self._n.data
+        if isinstance(k, tuple):
+            if k == ():
+                k = slice(None)
+            elif len(k) == 1:
+                k = k[0]
+            else:
+                raise TypeError("Argument sequence too long")
+        if k is Ellipsis:
+            k = slice(None)
+        if isinstance(d, SArr):
+            if isinstance(k, (SInt, builtins.int, _np.integer)) and not isinstance(k, bool):
+                n = len(d.items)
+                if isinstance(k, SInt):
+                    if not bool((k >= -n) & (k < n)):
+                        raise IndexError(f"Index out of range")
+                else:
+                    if not -n <= k < n:
+                        raise IndexError(f"Index ({k}) out of range for (0-{n - 1})")
+                return d[k]
+            r = d[k]
+            return r.copy() if isinstance(r, SArr) and not isinstance(r, symnp.MaskedSel) else r
+        r = d[k]
+        return r.view(CArr) if type(r) is _np.ndarray else r
+
+    def __setitem__(self, k, v):
+        if self._id.mode == "r":
+            raise OSError("Can't synchronously write data (no write intent on file)")
+        d = self._n.data
+        dt = self._n.dtype
+        if not isinstance(d, SArr):
+            if isinstance(v, SArr):
+                v = v.to_real()
+            d[k] = v
+            return
+        n = len(d.items)
+        if isinstance(k, tuple) and len(k) == 1:
+            k = k[0]
+        if k is Ellipsis or (isinstance(k, tuple) and k == ()):
+            k = slice(None)
+        if isinstance(k, slice):
+            idx = range(*d._norm_slice(k, n).indices(n))
+            # h5py refuses a selection that reaches beyond the current extent
+            stop = k.stop
+            if stop is not None and not is_sym(stop) and stop > n:
+                pass  # h5py clips the selection like numpy; the shape check below reports mismatches
+            items, sdt = _to_items(v, len(idx))
+            if len(items) == 1 and len(idx) != 1:
+                items = items * len(idx)
+            if len(items) != len(idx):
+                raise TypeError(f"Can't broadcast ({len(items)},) -> ({len(idx)},)")
+            conv = _convert(items, dt, sdt)
+            for i, x in zip(idx, conv):
+                d._items[i] = x
+            return
+        items, sdt = _to_items(v, None)
+        if isinstance(k, (builtins.int, _np.integer, SInt)):
+            d[k] = _convert(items[:1], dt, sdt)[0]
+            return
+        d[k] = SArr(_convert(items, dt, sdt), _plain(dt))
+
+    def resize(self, size, axis=None):
+        if self._id.mode == "r":
+            raise OSError("no write intent on file")
+        if isinstance(size, tuple):
+            size = size[0]
+        size = concretize(size)
+        node = self._n
+        if node.maxshape is None:
+            raise TypeError("Only chunked datasets can be resized")
+        ms = node.maxshape[0]
+        if ms is not None and size > ms:
+            raise ValueError(f"Unable to synchronously set dataset extent (dimension cannot exceed the existing maximal size (new: {size} max: {ms}))")
+        if size < 0:
+            raise ValueError("negative size")
+        d = node.data
+        n = len(d)
+        fv = node.fillvalue if node.fillvalue is not None else 0
+        if isinstance(d, SArr):
+            if size <= n:
+                d._items = d._items[:size]
+            else:
+                d._items = d._items + _convert([fv] * (size - n), node.dtype)
+        else:
+            if size <= n:
+                node.data = d[:size].copy()
+            else:
+                node.data = _np.concatenate([d, _np.zeros(size - n, dtype=d.dtype)])
+
+    def astype(self, dtype):
+        return _AsType(self, dtype)
+
+    def read_direct(self, dest, *a, **k):
+        raise Inconclusive("Dataset.read_direct")
+
+    def __repr__(self):
+        return f'<symh5 dataset "{posixpath.basename(self.name)}": shape {self.shape}, type "{self.dtype.str}">'
+
+
+class _AsType:
+    def __init__(self, d, dtype):
+        self.d, self.dtype = d, dtype
+
+    def __getitem__(self, k):
+        r = self.d[k]
+        return r.astype(self.dtype) if hasattr(r, "astype") else r
+
+
+# ---------------------------------------------------------------------------
+# helpers for harnesses: build files directly / read raw storage
+# ---------------------------------------------------------------------------
+def raw(path):
+    """the storage tree of an in-memory file, for oracles that look at the raw store"""
+    return _REG[_key(path)]
+
+
+def exists(path):
+    return is_hdf5(path)
